@@ -1,6 +1,7 @@
 package websocket
 
 import (
+	"bufio"
 	"net/http"
 	"strings"
 )
@@ -341,4 +342,107 @@ func verifC14_twice() {
 	m2 := mode.opts()
 	vAssert(vAnd(m2.clientNoContextTakeover == (mode == CompressionNoContextTakeover), m2.serverNoContextTakeover == (mode == CompressionNoContextTakeover)), "C14.twice.mode-options-are-fresh")
 	vObserve("c14twice", int(mode), o1, o2, ok1, ok2)
+}
+
+// vOfferGrid: concrete offers (one element of Sec-WebSocket-Extensions each) with what a server that cannot limit its
+// own window may do with them: acceptable or not, the flags the offer asks for, whether it mentions
+// client_max_window_bits (only then may the response carry that parameter).
+var vOfferGrid = []struct {
+	text             string
+	pmd, ok          bool
+	cnct, snct, cmwb bool
+}{
+	{"permessage-deflate", true, true, false, false, false},
+	{"permessage-deflate; client_no_context_takeover", true, true, true, false, false},
+	{"permessage-deflate; server_max_window_bits=10", true, false, false, false, false},
+	{"permessage-deflate; client_max_window_bits; server_max_window_bits=10", true, false, false, false, true},
+	{"permessage-deflate; client_max_window_bits", true, true, false, false, true},
+	{"permessage-deflate; client_max_window_bits=12; server_no_context_takeover", true, true, false, true, true},
+	{"x-webkit-deflate-frame", false, false, false, false, false},
+	{"permessage-deflate; bogus", true, false, false, false, false},
+	{"permessage-deflate; server_max_window_bits=15", true, true, false, false, false},
+	{"permessage-deflate; server_no_context_takeover; server_no_context_takeover", true, false, false, false, false},
+}
+
+// C14.accept: the whole server side of the negotiation through accept(): offers from the grid, one or two of them, in one
+// header line or two, against every server mode. What the response says, what the connection does and what the
+// reference allows must be one and the same: the response carries permessage-deflate exactly if some offer is
+// acceptable (the first such offer decides), its flags are the offer's plus the server's own preference, it carries no
+// parameter the client may not receive (client_max_window_bits only if the accepted offer mentioned it, never
+// server_max_window_bits), and the connection compresses exactly if the response says so, with the same flags.
+func verifC14_accept() {
+	mode := CompressionMode(vChoose("mode", 3))
+	n := 1 + vChoose("two", 2)
+	var picks []int
+	for i := 0; i < n; i++ {
+		picks = append(picks, vChoose("offer", len(vOfferGrid)))
+	}
+	r := &http.Request{Method: "GET", ProtoMajor: 1, ProtoMinor: 1, Header: http.Header{}, Host: "example.com"}
+	r.Header.Set("Connection", "Upgrade")
+	r.Header.Set("Upgrade", "websocket")
+	r.Header.Set("Sec-WebSocket-Version", "13")
+	r.Header.Set("Sec-WebSocket-Key", "dGhlIHNhbXBsZSBub25jZQ==")
+	if n == 2 && vChoose("twoLines", 2) == 1 {
+		r.Header["Sec-Websocket-Extensions"] = []string{vOfferGrid[picks[0]].text, vOfferGrid[picks[1]].text}
+	} else {
+		v := vOfferGrid[picks[0]].text
+		if n == 2 {
+			v += ", " + vOfferGrid[picks[1]].text
+		}
+		r.Header["Sec-Websocket-Extensions"] = []string{v}
+	}
+	t := vNewTransport(nil)
+	t.endMode = vEndBlock
+	w := &vRespWriter{hdr: http.Header{}, conn: &vNetConn{t}}
+	w.brw = bufio.NewReadWriter(bufio.NewReaderSize(w.conn, 16), bufio.NewWriterSize(w.conn, 16))
+	c, err := accept(w, r, &AcceptOptions{CompressionMode: mode})
+	vReach("C14.accept.returned")
+	vAssert(err == nil && c != nil && w.code == 101, "C14.accept.valid-request-upgraded")
+	if c == nil {
+		return
+	}
+	// reference
+	acc := -1
+	if mode != CompressionDisabled {
+		for _, k := range picks {
+			if vOfferGrid[k].pmd && vOfferGrid[k].ok {
+				acc = k
+				break
+			}
+		}
+	}
+	resp := websocketExtensions(w.hdrAtWriteHeader)
+	if acc < 0 {
+		vReach("C14.accept.no-agreement")
+		vAssert(len(resp) == 0, "C14.accept.no-extension-in-response-without-agreement")
+		vAssert(!c.flate(), "C14.accept.no-compression-without-agreement")
+	} else {
+		vReach("C14.accept.agreement")
+		o := vOfferGrid[acc]
+		wantC := o.cnct || mode == CompressionNoContextTakeover
+		wantS := o.snct || mode == CompressionNoContextTakeover
+		vAssert(len(resp) == 1 && resp[0].name == "permessage-deflate", "C14.accept.response-names-the-extension-once")
+		gotC, gotS := false, false
+		if len(resp) == 1 {
+			for _, p := range resp[0].params {
+				switch {
+				case p == "client_no_context_takeover":
+					gotC = true
+				case p == "server_no_context_takeover":
+					gotS = true
+				case vNamed(p, "client_max_window_bits"):
+					vAssert(o.cmwb, "C14.accept.client_max_window_bits-only-if-the-accepted-offer-has-it")
+				default:
+					vAssert(false, "C14.accept.response-parameter-a-client-may-not-receive")
+				}
+			}
+		}
+		vAssert(gotC == wantC && gotS == wantS, "C14.accept.response-flags")
+		vAssert(c.flate(), "C14.accept.compression-on-agreement")
+		if c.flate() {
+			vAssert(c.copts.clientNoContextTakeover == gotC && c.copts.serverNoContextTakeover == gotS, "C14.accept.connection-applies-what-the-response-says")
+		}
+	}
+	c.CloseNow()
+	vObserve("c14accept", int(mode), acc, len(resp))
 }
